@@ -1,4 +1,4 @@
-import IoraModel.Model.TsyncFacts
+import IoraModel.Model.ConnectSyncFacts
 /-!
 # Model of `Transport::connectSync` / `ITransport::connectSyncCancellable` (C04)
 
@@ -356,18 +356,32 @@ structure Cfg where
   /-- both handlers complete the waiter under the lock and notify outside; `onConnect` checks `abandoned` before erasing -/
   handlers : Bool
   /-- `wait_for` waits for the caller's timeout; the cancellable wrapper's sub-interval, deadline and sub-timeouts are the
-  documented expressions (the "in time" tie: durations themselves are not modelled, a timeout is a scheduler choice) -/
+  documented expressions (the "in time" tie: durations themselves are not modelled, a timeout is a scheduler choice); the wrapper
+  looks at a sub-attempt's RESULT before the token (`wrapperOrderExact`; otherwise `doWakeTokenFirst` runs) -/
   timing : Bool
   /-- the requested host/port/TLS mode are passed to `engine->connect` unchanged and an engine error is returned as is -/
   args : Bool
+  /-- the engine side of the EngineBase contract, regenerated from tcp_engine.hpp / udp_engine.hpp (`ConnectSyncFacts.genEngine`):
+  `close()` and `connect()` of both engines only enqueue, the Close arm of `process()` closes what it finds -/
+  engine : Bool
+  /-- `connectSync` has no protocol-dependent bypass that returns `engine->connect(...)` directly (repair FC04b) -/
+  noBypass : Bool
 
 def Cfg.Good (cfg : Cfg) : Prop :=
-  cfg.lockHeld = true ∧ cfg.closeWindow = true ∧ cfg.handlers = true ∧ cfg.timing = true ∧ cfg.args = true
+  cfg.lockHeld = true ∧ cfg.closeWindow = true ∧ cfg.handlers = true ∧ cfg.timing = true ∧ cfg.args = true ∧
+  cfg.engine = true ∧ cfg.noBypass = true
 
+/-- every flag is computed from regenerated source facts: the order predicates of `Model/TsyncFacts.lean` AND the exact-equality
+pins of `Model/ConnectSyncFacts.lean` (second review, item C) -/
 def genCfg : Cfg :=
-  { lockHeld := TsyncFacts.connectLockHeld, closeWindow := TsyncFacts.connectCloseWindow,
-    handlers := TsyncFacts.handlersCompleteUnderLock, timing := TsyncFacts.connectTimingArgs,
-    args := TsyncFacts.connectPassesArgs }
+  { lockHeld := TsyncFacts.connectLockHeld && ConnectSyncFacts.connectHeadExact,
+    closeWindow := TsyncFacts.connectCloseWindow && ConnectSyncFacts.connectTailExact,
+    handlers := TsyncFacts.handlersCompleteUnderLock && ConnectSyncFacts.onConnectPendingExact &&
+                ConnectSyncFacts.onClosePendingExact,
+    timing := TsyncFacts.connectTimingArgs && ConnectSyncFacts.timeoutOnlyClamped && ConnectSyncFacts.wrapperOrderExact,
+    args := ConnectSyncFacts.connectPassesArgsR,
+    engine := ConnectSyncFacts.genEngine.holds,
+    noBypass := ConnectSyncFacts.noProtocolBypass }
 
 /-- the timeout exit WITHOUT the `abandoned` mark (the tree before fix F16) -/
 def afterWaitU (s : State) (c sid : Nat) : State :=
@@ -386,10 +400,43 @@ def connHandlerU (s : State) (sid : Nat) : State :=
              io := .connNotify p.owner sid, log := s.log ++ [.hConnect sid, .delivered sid true] }
   | none => { s with io := .connGlobal sid, log := s.log ++ [.hConnect sid] }
 
+/-- `engine->close(sid)` of an engine that does NOT honour the contract: it returns `true` without queueing a Close when `sid`
+is not in its session table — which is also the case while the Connect of `sid` is still queued (seed C04-d) -/
+def doCloseDrop (s : State) (c : Nat) : State :=
+  match (s.callers c).pc with
+  | .closing sid =>
+    if s.eng sid == .none || s.eng sid == .closed then
+      { s with callers := setC s.callers c { s.callers c with pc := .relock sid }, log := s.log ++ [.engineClose c sid] }
+    else doClose s c
+  | _ => s
+
+/-- the protocol bypass of the tree before repair FC04b (`if (protocol == UDP) return engine->connect(host, port, tls);`):
+no lock, no fence check, no registration — the engine's `ok sid` is handed out at once -/
+def doEnterBypass (s : State) (c : Nat) : State :=
+  match (s.callers c).pc with
+  | .start =>
+    let sid := s.nextSid
+    ret { s with nextSid := sid + 1, fifo := s.fifo ++ [.connect sid], log := s.log ++ [.created c sid] } c (some sid) (.ok sid)
+  | _ => s
+
+/-- a cancellable wrapper that looks at the TOKEN before it looks at the sub-attempt's result (the statement order pinned by
+`ConnectSyncFacts.wrapperOrderExact`, part of `Cfg.timing`, is result first; seed C04-b swapped it): a sub-attempt that returns
+`ok sid` to a wrapper whose token is cancelled is reported as Cancelled — and nobody closes `sid` -/
+def doWakeTokenFirst (s : State) (c : Nat) (t : Bool) : State :=
+  let s' := doWake s c t
+  match (s.callers c).pc, (s.callers c).done, s.lock with
+  | .parked sid _, some (.ok sid'), none =>
+    if (s.callers c).wrapped && (s.callers c).cancelled then
+      { s' with log := s.log ++ [.attemptRet c (some sid) (.ok sid'), .wrapRet c (.err .cancelled)] }
+    else s'
+  | _, _, _ => s'
+
 def stepC (cfg : Cfg) (s : State) : Step → State
+  | .cEnter c => if cfg.noBypass then doEnter s c else doEnterBypass s c
+  | .cClose c => if cfg.engine then doClose s c else doCloseDrop s c
   | .cConnect c => if cfg.lockHeld then doConnect s c else { doConnect s c with lock := none }
   | .cWake c t =>
-    if cfg.closeWindow then doWake s c t
+    if cfg.closeWindow then (if cfg.timing then doWake s c t else doWakeTokenFirst s c t)
     else
       (match (s.callers c).pc, s.lock with
        | .parked sid _, none =>
@@ -406,8 +453,8 @@ def runC (cfg : Cfg) (s : State) : List Step → State
   | st :: rest => runC cfg (stepC cfg s st) rest
 
 theorem stepC_good {cfg : Cfg} (hg : cfg.Good) (s : State) (st : Step) : stepC cfg s st = step s st := by
-  obtain ⟨h1, h2, h3, _, _⟩ := hg
-  cases st <;> simp [stepC, step, h1, h2, h3]
+  obtain ⟨h1, h2, h3, h4, _, h6, h7⟩ := hg
+  cases st <;> simp [stepC, step, h1, h2, h3, h4, h6, h7]
 
 theorem runC_good {cfg : Cfg} (hg : cfg.Good) : ∀ (steps : List Step) (s : State), runC cfg s steps = run s steps := by
   intro steps
